@@ -29,6 +29,14 @@ def hash_array(array: np.ndarray) -> int:
     Returns:
         Computed hash as an integer.
     """
+    if array.dtype != np.float64 and (
+        np.issubdtype(array.dtype, np.integer)
+        or np.issubdtype(array.dtype, np.floating)
+        or array.dtype == np.bool_
+    ):
+        # Hash double precision representation of real valued arrays so that arrays
+        # which compare equal irrespective of their data type also hash equal
+        array = array.astype(np.float64)
     if XXHASH_AVAILABLE:
         # If fast Python wrapper of fast xxhash implementation is available use
         # in preference to built in hash function
